@@ -90,6 +90,43 @@ static void add_stream(Case& c, int fmt, int shape, int n) {
     });
 }
 
+// Readers piped straight into encoders: every source format x every target encoder x documents of every root kind and container
+// form (an encoder may refuse what it cannot write, e.g. a container of unknown length; whatever happens must be an error code
+// or a json_exception-family exception)
+static const int NPIPESRC = 6, NPIPEDST = 7, NPIPEDOC = 5;
+static const char* PIPESRC[NPIPESRC] = {"json", "csv", "cbor", "msgpack", "ubjson", "bson"};
+static const char* PIPEDST[NPIPEDST] = {"json", "json-pretty", "cbor", "msgpack", "ubjson", "bson", "csv"};
+static json pipe_doc(int d) {
+    switch (d) { case 0: return json::parse(R"({"a":1,"b":[1,{"c":[]},"s"],"d":{"e":null}})"); case 1: return json::parse(R"([1,[2,[3]],{"a":{}},"x",2.5,true])");
+        case 2: return json(7); case 3: return json::parse(R"([{"a":1,"b":"x"},{"a":2,"b":"y"}])"); default: return json::parse(R"({"m":[[1,2],[3,4]],"n":[]})"); }
+}
+template <class Enc, class Sink> static void pipe_into(int src, const json& v, Sink& sink) {
+    Enc enc(sink); std::error_code ec;
+    switch (src) {
+        case 0: { std::string t; v.dump(t); jsoncons::json_string_reader rd(t, enc); rd.read(ec); break; }
+        case 1: { std::string t = "a,b\n1,x\n2,\"y,z\"\n"; jsoncons::csv::csv_options o; o.assume_header(true); if (v.is_array()) o.mapping_kind(jsoncons::csv::csv_mapping_kind::n_rows); else if (v.is_object()) o.mapping_kind(jsoncons::csv::csv_mapping_kind::m_columns); jsoncons::csv::csv_string_reader rd(t, enc, o); rd.read(ec); break; }
+        case 2: { std::vector<uint8_t> b; jsoncons::cbor::encode_cbor(v, b); jsoncons::cbor::cbor_bytes_reader rd(b, enc); rd.read(ec); std::vector<uint8_t> ind = {0x9f, 0x01, 0xbf, 0x61, 0x61, 0x9f, 0xff, 0xff, 0x7f, 0x61, 0x78, 0xff, 0xff}; Enc enc2(sink); jsoncons::cbor::cbor_bytes_reader rd2(ind, enc2); std::error_code ec2; rd2.read(ec2); break; }
+        case 3: { std::vector<uint8_t> b; jsoncons::msgpack::encode_msgpack(v, b); jsoncons::msgpack::msgpack_bytes_reader rd(b, enc); rd.read(ec); break; }
+        case 4: { std::vector<uint8_t> b; jsoncons::ubjson::encode_ubjson(v, b); jsoncons::ubjson::ubjson_bytes_reader rd(b, enc); rd.read(ec); std::vector<uint8_t> ind = {'[', 'i', 1, '{', 'i', 1, 'a', '[', ']', '}', 'S', 'i', 1, 'x', ']'}; Enc enc2(sink); jsoncons::ubjson::ubjson_bytes_reader rd2(ind, enc2); std::error_code ec2; rd2.read(ec2); break; }
+        default: { json o = v.is_object() ? v : json(jsoncons::json_object_arg); if (!v.is_object()) o.try_emplace("r", v); std::vector<uint8_t> b; jsoncons::bson::encode_bson(o, b); jsoncons::bson::bson_bytes_reader rd(b, enc); rd.read(ec); break; }
+    }
+}
+static void add_pipe(Case& c, int src, int dst, int doc) {
+    json v = pipe_doc(doc);
+    c.entries.push_back([v, src, dst] {
+        std::string text; std::vector<uint8_t> bytes;
+        switch (dst) {
+            case 0: pipe_into<jsoncons::compact_json_string_encoder>(src, v, text); break;
+            case 1: pipe_into<jsoncons::json_string_encoder>(src, v, text); break;
+            case 2: pipe_into<jsoncons::cbor::cbor_bytes_encoder>(src, v, bytes); break;
+            case 3: pipe_into<jsoncons::msgpack::msgpack_bytes_encoder>(src, v, bytes); break;
+            case 4: pipe_into<jsoncons::ubjson::ubjson_bytes_encoder>(src, v, bytes); break;
+            case 5: pipe_into<jsoncons::bson::bson_bytes_encoder>(src, v, bytes); break;
+            default: pipe_into<jsoncons::csv::csv_string_encoder>(src, v, text); break;
+        }
+    });
+}
+
 int main(int argc, char** argv) {
     Args a(argc, argv);
     bool thorough = a.get("tier", "quick") == "thorough";
@@ -101,7 +138,14 @@ int main(int argc, char** argv) {
     long long nvalues = nl + 4 * nl * (long long)partners.size();
     long long total = nvalues * NFAM;
     long long nstream = (long long)(STREAM_HI - STREAM_LO + 1) * NSTREAMFMT * NSTREAMSHAPE;
+    long long npipe = (long long)NPIPESRC * NPIPEDST * NPIPEDOC;
     auto gen = [&](long long idx, Case& c) {
+        if (idx >= total + nstream) {
+            long long x = idx - total - nstream; int doc = int(x % NPIPEDOC); x /= NPIPEDOC; int dst = int(x % NPIPEDST); int src = int(x / NPIPEDST);
+            c.sig = std::string("ENC|pipe-") + PIPESRC[src] + "-" + PIPEDST[dst] + "|" + std::to_string(doc) + "/0";
+            c.what = std::string(PIPESRC[src]) + " reader piped into the " + PIPEDST[dst] + " encoder, document " + std::to_string(doc);
+            add_pipe(c, src, dst, doc); return;
+        }
         if (idx >= total) {
             long long x = idx - total; int fmt = int(x % NSTREAMFMT); x /= NSTREAMFMT; int sh = int(x % NSTREAMSHAPE); int n = STREAM_LO + int(x / NSTREAMSHAPE);
             c.sig = std::string("ENC|stream-") + STREAMFMT[fmt] + "|" + std::to_string(sh) + "/" + std::to_string(n);
@@ -115,6 +159,13 @@ int main(int argc, char** argv) {
         c.sig = std::string("ENC|") + FAM[fam] + "|" + d; c.what = std::string(FAM[fam]) + " encoder on value " + mv_text(to_mv(v)).substr(0, 200);
         add_encoders(c, v, fam);
     };
+    if (a.replay && split(a.sig, '|')[1].compare(0, 5, "pipe-") == 0) {
+        auto p = split(a.sig, '|'); auto q = split(p[1], '-'); int src = 0, dst = 0; std::string dn = q[2]; for (size_t k = 3; k < q.size(); ++k) dn += "-" + q[k];
+        for (int k = 0; k < NPIPESRC; ++k) if (q[1] == PIPESRC[k]) src = k; for (int k = 0; k < NPIPEDST; ++k) if (dn == PIPEDST[k]) dst = k;
+        int doc = atoi(p[2].c_str());
+        run_cases(1, 0, 1, [&](long long, Case& c) { c.sig = p[0] + "|" + p[1] + "|" + p[2]; c.what = "piped transcoding"; add_pipe(c, src, dst, doc); });
+        out().flush(); return 0;
+    }
     if (a.replay && split(a.sig, '|')[1].compare(0, 7, "stream-") == 0) {
         auto p = split(a.sig, '|'); auto q = split(p[2], '/'); int fmt = 0; for (int k = 0; k < NSTREAMFMT; ++k) if (p[1].substr(7) == STREAMFMT[k]) fmt = k;
         run_cases(1, 0, 1, [&](long long, Case& c) { c.sig = p[0] + "|" + p[1] + "|" + p[2]; c.what = "stream encoder"; add_stream(c, fmt, atoi(q[0].c_str()), atoi(q[1].c_str())); });
@@ -127,7 +178,7 @@ int main(int argc, char** argv) {
         run_cases(1, 0, 1, [&](long long, Case& c) { c.sig = std::string("ENC|") + FAM[fam] + "|" + d; c.what = std::string(FAM[fam]) + " encoder on value " + mv_text(to_mv(v)).substr(0, 200); add_encoders(c, v, fam); });
         out().flush(); return 0;
     }
-    run_cases(total + nstream, a.slice, a.nslices, gen);
+    run_cases(total + nstream + npipe, a.slice, a.nslices, gen);
     out().cls("encoders"); if (a.slice == 0) { out().gauge("leaf_values", nl); out().sample("every storage kind x every semantic tag (22) x ill- and well-typed contents, alone and in 4 container shapes, through 34 encoder entries"); }
     out().flush();
     return 0;
